@@ -482,6 +482,28 @@ def library_crash(text):
     return None
 
 
+def library_stuck(text):
+    """BUBBLE-STUCK dump (harness/bubble watchdog): a goroutine that waits for a sync.Mutex / RWMutex / WaitGroup / Cond from
+    inside library code while the bubble cannot make progress: returns a description, else None"""
+    if "BUBBLE-STUCK" not in text:
+        return None
+    dump = text[text.index("BUBBLE-STUCK"):]
+    for g in re.split(r"\n\n(?=goroutine \d+ )", dump):
+        if not re.search(r"\[(sync\.\w+\.\w+|semacquire|sync\.Mutex\.Lock|sync\.RWMutex\.\w+|sync\.WaitGroup\.Wait|sync\.Cond\.Wait)", g) and "sync.(*Mutex).Lock" not in g and "sync.(*RWMutex)" not in g and "sync.(*WaitGroup).Wait" not in g:
+            continue
+        lines = g.split("\n")
+        for a, b in zip(lines, lines[1:]):
+            if a and not a.startswith("\t") and b.startswith("\t"):
+                fn = a[:a.rfind("(")] if "(" in a else a
+                path = b.strip()
+                if path.startswith("/opt/") or fn.startswith(("runtime.", "sync.", "internal/", "golang.org/x/sync")):
+                    continue
+                if "github.com/bradenaw/juniper/" in fn and "/verifsched" not in fn:
+                    return "a goroutine is blocked on a lock / wait group inside %s and nothing else can run" % fn
+                break
+    return None
+
+
 def main(argv):
     import importlib.util
     if len(argv) < 2:
@@ -514,6 +536,10 @@ def main(argv):
         return ctx.finish()
     except Trouble as e:
         crash = library_crash(str(e))
+        stuck = library_stuck(str(e))
+        if stuck and not crash:
+            ctx.violation("a library call never returns: " + stuck, {"kind": "library-stuck", "where": stuck.split(" inside ")[-1].split(" ")[0]}, None)
+            return ctx.finish()
         if crash:
             ctx.violation("the library crashed the process it was running in: " + crash, {"kind": "library-crash", "where": crash.split(" in ")[-1]}, None)
             return ctx.finish()
